@@ -4,6 +4,7 @@ from facts import strip_generics
 from engine import site
 import lww
 import gate
+import orswot_abs
 
 CONFIGS = ['prod']
 EXPLANATION = (
@@ -137,14 +138,21 @@ def check(ctx):
     if any(r is None for r in roots):
         ctx.bad('C04.L', 'anchors', '', 'insert_with_source / delete_with_source / try_update_max_stamp not found (fail closed)')
         return
-    n = lww.check_bodies(ctx, facts, 'C04.L', roots, 'mutators')
-    ctx.floor('C04.L', 'survivor guards in the mutators', n, 5)
-    nb = lww.check_blind_overwrites(ctx, facts, 'C04.B', roots[:2])
-    ctx.floor('C04.B', 'timestamp stores by insert in the mutators', nb, 1)
-    nx = lww.check_exclusive_maps(ctx, facts, 'C04.X', roots[:2])
-    ctx.floor('C04.X', 'new-stamp stores into entries / dead in the mutators', nx, 2)
-    nd = lww.check_guarded_drops(ctx, facts, 'C04.D', roots[:2])
-    ctx.floor('C04.D', 'timestamp removals in the mutators', nd, 1)
+    # SEM: the per-key transfer function of both mutators, computed over the finite domain of order types (P-ORDER), equals
+    # the last-write-wins register.  It subsumes the structural clauses L / B / X / D / R for the two mutators, which are
+    # only evaluated when the code uses a construct the abstract interpreter does not model.
+    if orswot_abs.check_mutators(ctx, facts, 'C04.SEM'):
+        n = lww.check_bodies(ctx, facts, 'C04.L', [stamp], 'stamp update')
+        ctx.floor('C04.L', 'survivor guards in the per-source stamp update', n, 1)
+    else:
+        n = lww.check_bodies(ctx, facts, 'C04.L', roots, 'mutators')
+        ctx.floor('C04.L', 'survivor guards in the mutators', n, 5)
+        nb = lww.check_blind_overwrites(ctx, facts, 'C04.B', roots[:2])
+        ctx.floor('C04.B', 'timestamp stores by insert in the mutators', nb, 1)
+        nx = lww.check_exclusive_maps(ctx, facts, 'C04.X', roots[:2])
+        ctx.floor('C04.X', 'new-stamp stores into entries / dead in the mutators', nx, 2)
+        nd = lww.check_guarded_drops(ctx, facts, 'C04.D', roots[:2])
+        ctx.floor('C04.D', 'timestamp removals in the mutators', nd, 1)
+        check_R(ctx, facts)
     check_T1(ctx, facts)
-    check_R(ctx, facts)
     gate.check_gate(ctx, facts, 'C04.G')
